@@ -138,4 +138,42 @@ def monitor (script : List Cmd) (iters : List Iter) : Option String :=
         | none => none
   outcome <|> renames
 
+/-- C08, one daemon against an injected responder: "if, while probing, a daemon sees a response
+    claiming one of its names with different data, it does not take the name".  Judged on
+    histories with ONE registration (no re-registration, unregister, shutdown, clock jump):
+
+    a response read in iteration `k` carries a record (TTL > 1) of type SRV / TXT / A / AAAA whose
+    owner - any letter case - is a name the daemon has been PROBING for (its own record of that
+    name and type was in the authority section of a probe query sent before `k`), with RDATA that
+    none of the daemon's own records of that name and type has, and the daemon has not announced
+    the name yet - all on ONE interface.  Then the daemon never announces (unsolicited multicast
+    response, TTL > 0) a record of that name and type on that interface afterwards: it has to pick
+    a new name there. -/
+def monitorConflict (script : List Cmd) (iters : List Iter) (d : Nat) : Option String :=
+  let nreg := (script.filter fun c => match c with | .register .. => true | _ => false).length
+  let calm := !(script.any fun c => match c with
+    | .unregister .. | .shutdown .. | .ifaces .. | .now _ => true
+    | .other ("enable" :: _) | .other ("disable" :: _) => true
+    | _ => false)
+  if daemonsOf script != 1 || nreg != 1 || !calm || !plainNames script then none else
+  let pk := sentBy iters d
+  let rxs := readBy iters d
+  rxs.findSome? fun x =>
+    if !x.resp then none else
+    (x.m.answers ++ x.m.additionals).findSome? fun r' =>
+      if r'.ttl ≤ 1 || !(r'.ty == 33 || r'.ty == 16 || r'.ty == 1 || r'.ty == 28) then none else
+      -- our own records of that name and type, as the probes sent before `k` carried them
+      -- (names are claimed per link: every interface has its own registry, a conflict seen on
+      -- one interface renames there; other interfaces are not judged)
+      let ours := (pk.filter fun q => q.k < x.k && !q.resp && q.ifi == x.ifi).flatMap fun q =>
+        q.m.authorities.filter fun o => lower o.name == lower r'.name && o.ty == r'.ty
+      if ours.isEmpty || ours.any (fun o => o.rdata == r'.rdata) then none else
+      let announcedBefore := pk.any fun p => p.k < x.k && p.resp && p.dest == "m" && p.ifi == x.ifi &&
+        p.m.answers.any fun o => lower o.name == lower r'.name && o.ty == r'.ty && o.ttl > 0
+      if announcedBefore then none else
+      (pk.find? fun p => p.k ≥ x.k && p.resp && p.dest == "m" && p.ifi == x.ifi &&
+          (iters.toArray[p.k]?.map fun it => it.rx.isEmpty || p.k > x.k).getD false &&
+          p.m.answers.any fun o => lower o.name == lower r'.name && o.ty == r'.ty && o.ttl > 0).map fun p =>
+        s!"conflict-while-probing-but-name-kept name={hexOfBytes r'.name} ty={r'.ty} conflict-at={x.t} announced-at={p.t}"
+
 end Mdns.Driver.MonDuel
